@@ -1,4 +1,6 @@
 """C06 — skip markers and -k/-m selections decide exactly which tasks may run."""
+import copy
+
 import common
 from impl import engine, project
 
@@ -13,7 +15,28 @@ ASSUMPTIONS = [
     "language itself is property C16",
     "after-targets without products (finding F1) are generated only when known_findings.json lists F1 as known for C06; a violation is "
     "classified F1 only if the task's membership in the skip closure / selection closure needs a product-less after-edge",
+    "stream 'memlink' (a value-less in-memory PythonNode that is the product of one task and a dependency of another): the engine model M6 "
+    "has no stateless nodes, so this stream is judged by the implementation-only oracle (same rules, dependency relation from the spec) "
+    "without model replay; the theorems cover it as graph shape (taskDesc / taskAnc over whatever vertices lie between two tasks)",
+    "stream 'generator' (tasks created during the build by a selected task generator): the static engine model has no generators; "
+    "implementation-only oracle with the eligible set computed from the spec including the generated tasks; a generated task exists only "
+    "if its generator ran, so it is judged only when it is reported or executed; -m expressions of this stream do not name 'skip'/'skipif'",
 ]
+
+
+def ext_spec(spec):
+    """the spec including the tasks that its generators create (child 50+id of generator id, one product, optional markers)"""
+    gens = [t for t in spec["tasks"] if t.get("gen")]
+    if not gens:
+        return spec, set()
+    s = copy.deepcopy(spec)
+    kids = set()
+    for t in gens:
+        kid = 50 + t["id"]
+        kids.add(kid)
+        s["tasks"].append({"id": kid, "module": t["module"], "deps": [], "prods": [7000 + t["id"]], "after": [],
+                           "marks": list(t.get("gen_marks", [])), "beh": "ok"})
+    return s, kids
 
 
 def oracle(hist, records):
@@ -22,6 +45,7 @@ def oracle(hist, records):
         if rec["step"][0] != "build":
             continue
         spec, obs, cfg = rec["spec"], rec["obs"], rec["cfg"]
+        spec, optional = ext_spec(spec)      # generated tasks exist only if their generator ran
         if obs.get("raised") or obs.get("exit") not in (0, 1):
             bad.append(("exit", f"build raised / exit {obs.get('exit')} {obs.get('raised')}", None))
             continue
@@ -37,6 +61,8 @@ def oracle(hist, records):
                 bad.append(("skip" + ("-F1" if f else ""), f"skipped task {t} reported FAIL", f))
         el = engine.eligible(spec, cfg)
         for t in {x["id"] for x in spec["tasks"]} - el:
+            if t in optional and t not in out and t not in ex:
+                continue
             if t in ex:
                 bad.append(("select", f"task {t} is not selected by k={cfg.get('k')!r} m={cfg.get('m')!r} (nor needed by a selected task) but its body ran", None))
             if out.get(t) != "SKIP":
@@ -192,6 +218,114 @@ def histories(ctx):
     return hs
 
 
+def memlink_histories(ctx):
+    """Labelled stream "memlink": product→dependency links through a value-less in-memory PythonNode (`mem_out` / `mem_in`), alone or
+    next to file links, in fixed shapes with every single skip placement and -k on every task, and in random projects where a
+    random subset of the file links is replaced."""
+    rng = ctx.rng
+    hs = []
+
+    def mk(links, n, marks_of):
+        # links: (producer, consumer, kind) with kind "mem" | "file" | "both"
+        tasks = [{"id": i, "module": i % 2, "deps": [100] if i == 0 else [], "prods": [110 + i], "after": [], "marks": list(marks_of.get(i, [])),
+                  "beh": "ok", "style": ["default", "annotated", "kwargs"][i % 3]} for i in range(n)]
+        for u, v, kind in links:
+            if kind in ("file", "both"):
+                tasks[v]["deps"].append(110 + u)
+            if kind in ("mem", "both"):
+                tasks[u]["mem_out"] = True
+                tasks[v].setdefault("mem_in", []).append(u)
+        return {"tasks": tasks, "versions": {"0": 0, "1": 0}, "inputs": {"100": 5}}
+
+    shapes = [
+        ([(0, 1, "mem")], 2), ([(0, 1, "mem"), (1, 2, "file")], 3), ([(0, 1, "file"), (1, 2, "mem")], 3),
+        ([(0, 1, "mem"), (1, 2, "mem")], 3), ([(0, 1, "both"), (0, 2, "mem"), (1, 3, "file"), (2, 3, "mem")], 4),
+    ]
+    n = 0
+    for links, nt in shapes:
+        for tid in range(nt):
+            for pl in (["skip"], ["skipif_true"], ["skipif_false"]):
+                n += 1
+                cfg = [{}, {"force": True}, {"dry": True}][n % 3]
+                hs.append({"tag": "memlink", "spec": mk(links, nt, {tid: pl}), "steps": [["build", cfg]]})
+            hs.append({"tag": "memlink", "spec": mk(links, nt, {}), "steps": [["build", {"k": project.tname(tid)}]]})
+            hs.append({"tag": "memlink", "spec": mk(links, nt, {tid: ["markone"]}), "steps": [["build", {"m": "markone", "force": True}]]})
+    for i in range(ctx.scale(25, 400)):
+        spec = engine.gen_spec(rng, nt=(3, 7), after_p=0.15, after_needs_prods=True, user_markers=True, dens=0.8, prodless_p=0.05,
+                               styles=("default", "annotated", "kwargs"),
+                               marks=(("skip", 0.15), ("skipif_true", 0.08), ("skipif_true_e", 0.03), ("skipif_false", 0.1)))
+        prod_of = {p: t["id"] for t in spec["tasks"] for p in t["prods"]}
+        changed = False
+        for t in spec["tasks"]:
+            for d in list(t["deps"]):
+                u = prod_of.get(d)
+                if u is not None and u != t["id"] and rng.random() < 0.5:
+                    byid = {x["id"]: x for x in spec["tasks"]}
+                    byid[u]["mem_out"] = True
+                    if u not in t.setdefault("mem_in", []):
+                        t["mem_in"].append(u)
+                    if rng.random() < 0.7:
+                        t["deps"].remove(d)        # the in-memory node is the only link
+                    changed = True
+        if not changed:
+            continue
+        cfg = {}
+        r = rng.random()
+        if r < 0.3:
+            cfg["k"] = gen_expr(rng, spec, "k")
+        elif r < 0.5:
+            cfg["m"] = gen_expr(rng, spec, "m")
+        if rng.random() < 0.25:
+            cfg["force"] = True
+        hs.append({"tag": "memlink", "spec": spec, "steps": [["build", cfg]]})
+    return hs
+
+
+def generator_histories(ctx):
+    """Labelled stream "generator": a selected task generator creates a task during the build; the selection must apply to it."""
+    rng = ctx.rng
+    hs = []
+    for i in range(ctx.scale(40, 500)):
+        spec = engine.gen_spec(rng, nt=(2, 5), after_p=0.15, after_needs_prods=True, user_markers=True, prodless_p=0.1,
+                               styles=("default", "annotated", "kwargs"), marks=(("skip", 0.05), ("skipif_false", 0.1)))
+        for t in rng.sample(spec["tasks"], rng.randint(1, min(2, len(spec["tasks"])))):
+            t["gen"] = True
+            t["gen_marks"] = [mk for mk in ("markone", "marktwo") if rng.random() < 0.4]
+        se, kids = ext_spec(spec)
+        names = [project.tname(t["id"]) for t in se["tasks"]]
+        gens = [project.tname(t["id"]) for t in spec["tasks"] if t.get("gen")]
+        cfg = {}
+        r = rng.random()
+        if r < 0.45:      # the generator plus something else, so that the generator runs and its child may or may not be selected
+            cfg["k"] = " or ".join([rng.choice(gens)] + rng.sample(names, rng.randint(0, 2)))
+        elif r < 0.6:
+            cfg["k"] = gen_expr(rng, se, "k")
+        elif r < 0.9:
+            cfg["m"] = rng.choice(["markone", "marktwo", "not markone", "not marktwo", "markone or marktwo", "not markone and not marktwo",
+                                   "markone and not marktwo", "nomatch or not markone"])
+        else:
+            cfg["k"] = rng.choice(gens) + " or " + rng.choice(names)
+            cfg["m"] = rng.choice(["not markone", "not marktwo", "markone or not marktwo"])
+        if rng.random() < 0.2:
+            cfg["force"] = True
+        steps = [["build", cfg]]
+        if rng.random() < 0.3:
+            steps.append(["build", dict(cfg)])
+        hs.append({"tag": "generator", "spec": spec, "steps": steps})
+    return hs
+
+
+def nontrivial_gen(h, recs):
+    """a generated task was reported, and the build reports both SKIP and something else"""
+    kids = {50 + t["id"] for t in h["spec"]["tasks"] if t.get("gen")}
+    for r in recs:
+        if r["step"][0] == "build":
+            out = engine.outcomes(r["obs"])
+            if kids & set(out) and "SKIP" in out.values() and len(set(out.values())) >= 2:
+                return True
+    return False
+
+
 def nontrivial(h, recs):
     b = [r for r in recs if r["step"][0] == "build"]
     last = b[-1]
@@ -203,10 +337,18 @@ def run(ctx):
     ctx.rule = ("generated projects with skip / skipif(True|False) / persist / user markers × -k, -m, both, none × force × dry-run × fresh or "
                 "partially built state; non-trivial = the selecting build reports SKIP for some task and something else for another; distinct by (spec, steps)")
     engine.run_campaign(ctx, histories(ctx), oracle, nontrivial=nontrivial, sel_eval=engine.sel_eval)
+    # labelled streams without model replay (see ASSUMPTIONS)
+    before = len(ctx.nontrivial)
+    engine.run_campaign(ctx, memlink_histories(ctx), oracle, nontrivial=nontrivial, compare_model=False)
+    ctx.extra["memlink_stream_nontrivial"] = len(ctx.nontrivial) - before
+    before = len(ctx.nontrivial)
+    engine.run_campaign(ctx, generator_histories(ctx), oracle, nontrivial=nontrivial_gen, compare_model=False)
+    ctx.extra["generator_stream_nontrivial"] = len(ctx.nontrivial) - before
 
 
 def replay(ctx, obj):
-    engine.run_campaign(ctx, [obj["input"]["history"]] * 4, oracle, sel_eval=engine.sel_eval)
+    h = obj["input"]["history"]
+    engine.run_campaign(ctx, [h] * 4, oracle, sel_eval=engine.sel_eval, compare_model=h.get("tag") not in ("memlink", "generator"))
     if ctx.violations:
         return False, ctx.violations[0]["what"]
     if ctx.disagreements:
